@@ -158,6 +158,31 @@ func genC16(seed uint64, tier string, prop string) Case {
 		}
 		return c
 	}
+	if prop != "C18" && r.chance(1, 5) {
+		// emptying burst: one or two records (some already expired), then every client fires at the same simulated
+		// instant - removals that empty the swamp (and auto-destroy it) meet claimers, readers and writers that hold
+		// their vigil on the same instance
+		c.Ops = nil
+		first := 1 + r.intn(2)
+		for i := 0; i < first; i++ {
+			c.Ops = append(c.Ops, Op{C: 0, K: []string{"set", "setx"}[r.intn(2)], A: []int64{0, 0}})
+		}
+		at := int64(200 + r.intn(3)*400)
+		for cl := 1; cl < 3+r.intn(3); cl++ {
+			kind := []string{"del", "shift", "shiftexp", "shiftexp", "set", "get", "setx"}[r.intn(7)]
+			if cl == 1 {
+				kind = []string{"del", "shift", "shiftexp"}[r.intn(3)]
+			}
+			c.Ops = append(c.Ops, Op{C: cl, K: kind, A: []int64{at, 0, int64(r.intn(first)), 0}})
+			if kind == "shiftexp" {
+				c.Ops[len(c.Ops)-1].A[2] = int64(1 + r.intn(10))
+			}
+			for r.chance(1, 2) {
+				k2 := []string{"del", "shift", "shiftexp", "set", "get"}[r.intn(5)]
+				c.Ops = append(c.Ops, Op{C: cl, K: k2, A: []int64{int64(r.intn(2)), 0, int64(1 + r.intn(first)), 0}})
+			}
+		}
+	}
 	c.Sched = genSched(r)
 	if r.chance(1, 3) {
 		c.Sched.StallPPM = 3_000
